@@ -293,7 +293,15 @@ def f_transform(a):
 def f_treesum(a):
     g = build(a["G"], a["sr"], a.get("names", "str"), a.get("pre"), a.get("late", 0))
     how = a["how"]
-    if how == "agenda":
+    if how == "agenda" and "popscript" in a:
+        # a pop order of the agenda, forced through the choosing chart (vchart.py)
+        import vchart
+        with vchart.patched(g.R):
+            vchart.reset(a["popscript"])
+            ch = g.agenda()
+        ch = {k: v for k, v in ch.items()}
+        ch = type("C", (dict,), {"__missing__": lambda self, k: g.R.zero})(ch)
+    elif how == "agenda":
         ch = g.agenda(**({"tol": a["tol"]} if "tol" in a else {}))
     elif how == "naive":
         ch = g.naive_bottom_up()
